@@ -42,6 +42,49 @@ SETUP = '''create module default;
  create alias default::U2 := default::User { n2 := .name };
  create global default::cur -> str;
 '''
+# user functions whose volatility is *inferred* from the body, with the
+# mutation in every position a function body admits (created one by one
+# after SETUP; a body the compiler rejects is skipped and counted)
+FN_BODIES = {
+    'fb_insert': ("-> default::Log", "insert default::Log { msg := 'f' }"),
+    'fb_select_insert': ("-> default::Log",
+                         "select (insert default::Log { msg := 'f' })"),
+    'fb_with': ("-> default::Log",
+                "with x := (insert default::Log { msg := 'f' }) select x"),
+    'fb_with_unused': ("-> float64",
+                       "with x := (insert default::Log { msg := 'f' }), "
+                       "r := random() select r"),
+    'fb_with_const': ("-> int64",
+                      "with x := (insert default::Log { msg := 'f' }) "
+                      "select 1"),
+    'fb_with_update': ("-> int64",
+                       "with u := (update default::User set { age := 1 }) "
+                       "select count(u)"),
+    'fb_with_delete': ("-> int64",
+                       "with d := (delete default::Log) select count(d)"),
+    'fb_for': ("-> set of default::Log",
+               "for i in {'a', 'b'} union (insert default::Log "
+               "{ msg := i })"),
+    'fb_for_with': ("-> set of int64",
+                    "for i in {1, 2} union (with x := (insert default::Log "
+                    "{ msg := 'f' }) select i)"),
+    'fb_nested_with': ("-> int64",
+                       "select (with x := (insert default::Log "
+                       "{ msg := 'f' }) select 1)"),
+    'fb_tuple': ("-> tuple<int64, default::Log>",
+                 "select (1, (insert default::Log { msg := 'f' }))"),
+    'fb_count': ("-> int64",
+                 "select count((insert default::Log { msg := 'f' }))"),
+    'fb_if': ("-> optional default::Log",
+              "select (insert default::Log { msg := 'a' }) if true else "
+              "(insert default::Log { msg := 'b' })"),
+    'fb_call': ("-> default::User", "select default::mk('q')"),
+    'fb_with_call': ("-> int64",
+                     "with u := default::mk('q') select 1"),
+}
+FN_CALLS = ['select {f}()', 'select ({f}(), 1)',
+            'with z := {f}() select 1', 'for i in {{1, 2}} union {f}()',
+            'select count({f}())', 'select <str>count({f}()) ++ ro("a")']
 HTTP = "std::net::http::schedule_request('http://x')"
 DML = {
     'insert': "(insert Log { msg := 'x' })",
@@ -137,6 +180,20 @@ def winit():
     except Exception:
         pass
     us, _ = edbcompiler.compile_edgeql_script(ctx, SETUP)
+    fns = []
+    for name, (ret, body) in FN_BODIES.items():
+        try:
+            c2 = edbcompiler.new_compiler_context(
+                compiler_state=comp.state, user_schema=us,
+                modaliases={None: 'default'})
+            us2, _ = edbcompiler.compile_edgeql_script(
+                c2, 'configure session set allow_dml_in_functions := true; '
+                f'create function default::{name}() {ret} using ({body});')
+        except Exception:
+            continue
+        us = us2
+        fns.append(name)
+    _W['fns'] = fns
     _W.update(S=S, comp=comp, cmod=cmod, enums=enums, us=us,
               edbcompiler=edbcompiler, s_schema=s_schema, defines=defines,
               immutables=immutables)
@@ -238,6 +295,10 @@ def cases(quick):
                 inner = '(' + inner + ')'
                 q = t1.format(d=inner, d0='', du='', d0u='')
                 out.append((q, 'normal', True, None, f'{c1}>{c2}/{dn}'))
+    for fn in (_W.get('fns') or FN_BODIES):
+        for call in FN_CALLS:
+            out.append((call.format(f=fn), 'normal', True, None,
+                        f'fn-body/{fn}'))
     for q, bit in KINDS:
         for mode in ('normal', 'notebook'):
             if mode == 'notebook' and q.startswith(NOTEBOOK_EXEMPT):
